@@ -118,6 +118,16 @@ class TS:
             if k == "T":
                 return TF if base in GOOD else T0
             return base
+        if isinstance(e, ast.Call) and isinstance(e.func, ast.Attribute) and e.func.attr != "filtered" \
+                and self.repo.has_func(f"coverage::Coverage.{e.func.attr}"):
+            # a helper method of Coverage that returns a (filtered) coverage: state of its return expressions
+            base = self.state(e.func.value, at)
+            if base is None:
+                return None
+            target = self.repo.func(f"coverage::Coverage.{e.func.attr}")
+            sub = TS(self.repo, target, {"self": base})
+            sts = [sub.state(r.value, r) for r in walk_local(target) if isinstance(r, ast.Return) and r.value is not None]
+            return join(sts) if sts and all(x is not None for x in sts) else None
         if isinstance(e, ast.Subscript):
             return self.elem_state(e.value, at)
         if isinstance(e, ast.IfExp):
